@@ -427,7 +427,7 @@ def run_c02(args):
     exe, px = vf.build_driver("drv_dispatch", "plain", cflags=["-pthread"])
     chk.extra["build"] = px["hash"]
     configs = CONFIGS_QUICK + ([] if quick else CONFIGS_MORE)
-    reqs = gen_requests(rng, 500 if quick else 6000)
+    reqs = gen_requests(rng, 500 if quick else 15000)
     directed = table_directed_requests(rng, exe, wd, configs)
     if quick and len(directed) > 1100:
         directed = rng.sample(directed, 1100)
@@ -494,7 +494,7 @@ def run_c16(args):
     mc(chk, [("T2", False), ("negshared", True)])
     exe, px = vf.build_driver("drv_dispatch", "plain", cflags=["-pthread"])
     chk.extra["build"] = px["hash"]
-    reqs = gen_requests(rng, 600 if quick else 6000, threads=True)
+    reqs = gen_requests(rng, 600 if quick else 12000, threads=True)
     script = os.path.join(wd, "reqs.script")
     open(script, "w").write("\n".join(reqs) + "\n")
     chk.sample({"request_script_lines": reqs[:3]})
@@ -507,7 +507,7 @@ def run_c16(args):
     lfiles = [lookup_file(solo, solo + ".lookup")]
     thread_counts = [2, 5] if quick else [2, 3, 5, 8]
     for nt in thread_counts:
-        for rep in range(1 if quick else 6):
+        for rep in range(1 if quick else 10):
             tr = os.path.join(wd, "thr%d_%d.ndjson" % (nt, rep))
             p = run_config(exe, script, tr, "", nthreads=nt)
             if p.returncode != 0:
